@@ -5,7 +5,10 @@
 // Go oracle (harness/producer/oracle.go): every committed block is hash-linked, time-monotone, commits to
 // the batch it was built from, carries the delayed state root, is signed by the genesis proposer and
 // passes ValidateBasic / types.Validate / execValidate; plus the no-wedge probe (three well-formed
-// responses must produce a block).  Writes cases_C01.v for Check/ProducerCheck.v and result.json.
+// responses must produce a block).  All reads go through the store object the Manager runs on (what an RPC
+// client, the DA submitter or the sync services of the node see), after every item and — for a quarter of
+// the steps — also from inside ExecuteTxs (between the early and the final save of a block), and are
+// cross-checked against a freshly opened store.  Writes cases_C01.v for Check/ProducerCheck.v and result.json.
 package c01
 
 import (
@@ -71,13 +74,14 @@ func gen(r *rand.Rand, tier string, c int, _ int64) (producer.Cfg, []producer.It
 			}
 		}
 		it.ExecErr = r.Intn(100) < 7
+		it.Peek = r.Intn(100) < 25 // a client reads the store while the execution layer works
 		h = append(h, it)
 	}
 	return cfg, h
 }
 
 func TestVerif(t *testing.T) {
-	rule := "boot (5%: a first boot whose InitChain fails) then 1..40 (quick) / 1..120, every 10th case 1..300 (thorough) production steps; sequencer response 50% non-empty batch (1-5 txs of 1-64 bytes, 5% zero-length, 2.5% one 100 kB tx), 25% empty batch, 12% absent batch, 13% transient error; timestamp delta 15% regress / 10% equal / 75% advance by 1..5000 ms; 7% execution errors; initial height from {1,1,2,5,1000}; lazy/normal mode flag random; non-trivial = at least 3 steps and one committed block; distinct = distinct (configuration, history)"
+	rule := "boot (5%: a first boot whose InitChain fails) then 1..40 (quick) / 1..120, every 10th case 1..300 (thorough) production steps; sequencer response 50% non-empty batch (1-5 txs of 1-64 bytes, 5% zero-length, 2.5% one 100 kB tx), 25% empty batch, 12% absent batch, 13% transient error; timestamp delta 15% regress / 10% equal / 75% advance by 1..5000 ms; 7% execution errors; in 25% of the steps a client of the node reads the height being produced and the one below through the node's store while the execution layer works (between the early and the final save); after EVERY item the blocks the node's store serves (same store object as the Manager's) at the tip, the pending height, the heights written and two older heights are checked and compared with a freshly opened store; initial height from {1,1,2,5,1000}; lazy/normal mode flag random; non-trivial = at least 3 steps and one committed block; distinct = distinct (configuration, history)"
 	producer.Main(t, "C01", gen, rule, func(cfg producer.Cfg, h []producer.Item, obs []producer.Obs) bool {
 		steps, commits := 0, 0
 		for i, it := range h {
